@@ -2,11 +2,13 @@
 
 proof: coq/proofs/LogHandler_Proofs.v (file_log_complete: every record sequence followed by close, both handlers),
 LogRepr_Proofs.v (repr of bytes is invertible: the coalesced line determines the payload), LogFormat_Proofs.v (format_total),
-ChanLog_Proofs.v (channel_log_exact, whole_session_exact, late_open_loses); props/C20.v.
+ChanLog_Proofs.v (channel_log_exact, whole_session_exact, late_open_loses), ChanReopen_Proofs.v (one channel object opened again after
+close: reopen_append_exact, reopen_write_last, reopen_nothing_silent), LogMode_Proofs.v (the mode argument in every casing); props/C20.v.
 tie: Gen_Log.v regenerated from the source (format strings, literals, prefixes, hot-path templates, statement order
 of read() and of Driver.open / AsyncDriver.open, call sites of transport.read) + correspondence of model/LogHandler.v,
 LogFormat.v, ChanLog.v against the real handlers / formatter / channels / drivers on the same generated record sequences,
-read sequences, whole sessions and commandeered sessions (c20_driver.py), several handler instances in one process."""
+read sequences, whole sessions and commandeered sessions (c20_driver.py), re-open histories on one driver object (c20_reopen.py),
+mode spellings x previous file content (log-mode), several handler instances in one process."""
 import ast
 import asyncio
 import io
@@ -18,7 +20,7 @@ import shutil
 import sys
 import weakref
 
-from . import c20_driver, common
+from . import c20_driver, c20_reopen, common
 from .common import coq_bool, coq_bytes, coq_list
 
 LEVEL = "proof"
@@ -75,6 +77,53 @@ Definition chk (c : sink_kind * bytes * list sess_ev * option bytes) : bool :=
   | _, _ => false
   end.
 """
+
+
+REOPEN_HEADER = """From Verif Require Import Bytes ChanLog ChanReopen.
+Definition Op := HEvOpen.
+Definition Rd := HEvRead.
+Definition Cl := HEvClose.
+(* the history of one channel object, session by session (channel.open() / read / channel.close() as OBSERVED), with what the
+   destination holds after each close; how many reads were made by an operation that raised *)
+Fixpoint chk_sessions (k : sink_kind) (keeps_open : bool) (st : rstate) (segs : list (list hist_ev * bytes)) : option rstate :=
+  match segs with
+  | [] => Some st
+  | (evs, d) :: rest =>
+      let st' := reopen_run false k keeps_open st evs in
+      if beq (dest st') d then chk_sessions k keeps_open st' rest else None
+  end.
+Definition chk (c : sink_kind * bool * bytes * list (list hist_ev * bytes) * nat) : bool :=
+  let '(k, keeps_open, existing, segs, r) := c in
+  match chk_sessions k keeps_open (reopen_init existing) segs with
+  | Some st => Nat.eqb (raised st) r
+  | None => false
+  end.
+"""
+
+
+def reopen_case_term(case, obs):
+    """per session: the observed events and the snapshot taken after its close"""
+    k = {"none": "SNone", "path": "(SFile %s)" % coq_bool(case["append"]), "true": "(SFile %s)" % coq_bool(case["append"]),
+         "bytesio": "SBytesIO", "bytesio-open": "SBytesIO"}[case["sink"]]
+    existing = case["existing"] if (case["sink"].startswith("bytesio") or case["has_existing"]) else ""
+    if case["sink"] == "none":
+        existing = ""
+    segs, loud = [], 0
+    for j, so in enumerate(obs["sessions"]):
+        evs = []
+        for kind, sj, c, _ in obs["events"]:
+            if sj != j:
+                continue
+            if kind == "open":
+                evs.append("Op")
+            elif kind == "r":
+                evs.append("Rd %s" % coq_bytes(bytes.fromhex(c)))
+            elif kind == "close":
+                evs.append("Cl")
+        loud += sum(1 for _, l in so["served"] if l)
+        snap = "" if case["sink"] == "none" else (so["snapshot"] if so["snapshot"] is not None else "")
+        segs.append("(%s, %s)" % ("[%s]" % "; ".join(evs) if evs else "(@nil hist_ev)", coq_bytes(bytes.fromhex(snap))))
+    return "(%s, %s, %s, [%s], %d%%nat)" % (k, coq_bool(case["sink"] == "bytesio-open"), coq_bytes(bytes.fromhex(existing)), "; ".join(segs), loud)
 
 
 CMD_HEADER = """From Verif Require Import Bytes ChanLog Commandeer.
@@ -202,13 +251,17 @@ def run_log_impl(case, workdir):
             f.write(case["existing"])
     escaped = []
     setup_exc = None
+    setup_scrapli = None
+    left_handlers = 0
     with _Quiet() as q:
         try:
             sl.enable_basic_logging(file=path, level="debug", caller_info=case["caller"], buffer_log=case["buffered"],
-                                    mode="append" if case["append"] else "write")
+                                    mode=case.get("mode", "append" if case["append"] else "write"))
             (h,) = q.new_handlers()
         except Exception as e:  # noqa
             setup_exc = type(e).__name__
+            setup_scrapli = any(c.__name__ == "ScrapliException" for c in type(e).__mro__)
+            left_handlers = len(q.new_handlers())
             h = None
         if h is not None:
             for rd in case["recs"]:
@@ -232,7 +285,8 @@ def run_log_impl(case, workdir):
         content = open(path, "rb").read().decode("utf-8")
     except Exception as e:  # noqa
         content = "<unreadable: %s>" % type(e).__name__
-    return {"file": content, "errors": errors, "escaped": escaped, "setup_exc": setup_exc, "stderr_tail": stderr_tail}
+    return {"file": content, "errors": errors, "escaped": escaped, "setup_exc": setup_exc, "stderr_tail": stderr_tail,
+            "setup_scrapli": setup_scrapli, "left_handlers": left_handlers, "file_exists": os.path.exists(path)}
 
 
 def expected_log_regex(case, asctime):
@@ -527,6 +581,116 @@ def classify_log(case, obs):
     if case["buffered"] and case["recs"] and not obs["errors"]:
         return "c20-buffered-content"
     return "c20-log-" + "-".join(sorted(k or "?" for k in kinds))[:40]
+
+
+# ------------------------------------------------------------------------------------------------
+# suite log-mode : the `mode` argument of enable_basic_logging in every spelling x files with previous content x both handlers
+# ------------------------------------------------------------------------------------------------
+MODE_WORDS = ["append", "write"]
+MODE_BLANKS = [" ", "  ", "\t", "\n", "\r\n", "\x0b", "\x0c", "\u00a0", "\u2003"]
+MODE_INVALID = ["", " ", "a", "w", "ab", "wb", "a+", "x", "r", "apend", "appendd", "appen", "writ", "writes", "wwrite", "append write", "write,append",
+                "app end", "w rite", "overwrite", "truncate", "append\x00", "\x00write", "appe\u0301nd", "APP\u00c9ND", "WR\u0130TE", "wr\u0131te",
+                "\uff41ppend", "append;", "'append'", "write\\n", "None", "True", "0"]
+MODE_PREV = [None, "", "old line\n", "no newline", "1     | 2023-11-14 22:13:20,123 | INFO     | h:22                      | an earlier session\n"]
+
+
+def mode_meaning(mode):
+    """None: not a mode; False / True: write / append — what the spelling says once case and surrounding blanks are put aside"""
+    return {"write": False, "append": True}.get(mode.strip().lower())
+
+
+def all_casings(word):
+    import itertools
+    return ["".join(c.upper() if up else c for c, up in zip(word, ups)) for ups in itertools.product((False, True), repeat=len(word))]
+
+
+def _mode_recs(rng, wide, n):
+    ex = gen_extra(rng)
+    recs = []
+    for _ in range(n):
+        r = gen_record(rng, False, ex)
+        if rng.random() < 0.5:
+            r["kind"], r["msg"], r["args"] = "lazy_read", "read: %r", [["b", gen_payload(rng).hex()]]
+        recs.append(r)
+    return recs
+
+
+def mode_cases(rng, wide, thorough):
+    """every casing of 'append' and 'write' (2^6 + 2^5 spellings), the usual spellings x {no file, empty file, files with content} x
+    {buffering, plain} in full, spellings with surrounding blanks, and strings that are no mode"""
+    out = []
+
+    def mk(mode, buffered, existing, n):
+        m = mode_meaning(mode)
+        return {"mode": mode, "buffered": buffered, "append": bool(m), "caller": False, "existing": existing, "close": rng.choice(["close", "shutdown"]),
+                "recs": _mode_recs(rng, wide, n), "domain": True, "mode_kind": "invalid" if m is None else ("exact" if mode in MODE_WORDS else
+                                                                                                          "blanks" if mode != mode.strip() else "casing")}
+    for w in MODE_WORDS:
+        for sp in (w, w.upper(), w.capitalize(), w.swapcase().capitalize().swapcase()):
+            for buffered in (True, False):
+                for existing in MODE_PREV:
+                    out.append(mk(sp, buffered, existing, rng.choice([0, 1, 2, 3])))
+        for sp in all_casings(w):
+            for _ in range(2 if thorough else 1):
+                out.append(mk(sp, rng.random() < 0.5, rng.choice(MODE_PREV[2:] + [MODE_PREV[2]]), rng.choice([0, 1, 2])))
+    for _ in range(120 if thorough else 24):
+        w = rng.choice(MODE_WORDS)
+        sp = rng.choice(all_casings(w))
+        lead, trail = rng.choice(["", rng.choice(MODE_BLANKS)]), rng.choice(["", rng.choice(MODE_BLANKS)])
+        sp = lead + sp + (trail if (lead or trail) else " ")
+        out.append(mk(sp, rng.random() < 0.5, rng.choice(MODE_PREV), rng.choice([0, 1, 2])))
+    for sp in MODE_INVALID:
+        out.append(mk(sp, rng.random() < 0.5, rng.choice(MODE_PREV), rng.choice([0, 1])))
+    return out
+
+
+def oracle_mode(case, obs, asctime):
+    """write and append modes, whatever the spelling: a spelling that IS write / append (case and surrounding blanks aside) is either
+    served — append keeps the previous content and adds the records in order, write starts empty — or refused like any string
+    that is no mode: a scrapli error, no handler left on the logger, the file as it was (not created, not truncated).
+    'write' and 'append' themselves are always served."""
+    meaning = mode_meaning(case["mode"])
+    if obs["setup_exc"]:
+        if case["mode"] in MODE_WORDS:
+            return "enable_basic_logging(mode=%r) raised %s" % (case["mode"], obs["setup_exc"])
+        if not obs["setup_scrapli"]:
+            return "enable_basic_logging(mode=%r) raised %s, which is not a scrapli error" % (case["mode"], obs["setup_exc"])
+        if obs["left_handlers"]:
+            return "enable_basic_logging(mode=%r) raised %s but left a handler on the scrapli logger" % (case["mode"], obs["setup_exc"])
+        if (case["existing"] is None and obs["file_exists"]) or (case["existing"] is not None and obs["file"] != case["existing"]):
+            return "enable_basic_logging(mode=%r) raised %s but touched the file (previous content %r, now %r)" % (
+                case["mode"], obs["setup_exc"], case["existing"], obs["file"][:80] if obs["file_exists"] else None)
+        return None
+    if meaning is None:
+        return "enable_basic_logging accepted mode=%r, which is neither 'write' nor 'append' (the file now holds %r, previous content %r)" % (
+            case["mode"], obs["file"][:80], case["existing"])
+    why = oracle_log(dict(case, append=meaning), obs, asctime)
+    if why and meaning and case["existing"] and not obs["file"].startswith(case["existing"]):
+        return "mode=%r (append): the previous content of the log file %r is gone, the file now starts %r" % (case["mode"], case["existing"][:60], obs["file"][:60])
+    if why and not meaning and case["existing"] and obs["file"].startswith(case["existing"]):
+        return "mode=%r (write): the file still starts with its previous content %r" % (case["mode"], case["existing"][:60])
+    return why and "mode=%r: %s" % (case["mode"], why)
+
+
+MODE_HEADER = """From Verif Require Import Bytes LogFormat LogHandler.
+(* refused = true: enable_basic_logging raised; [f] is then the file as it was found afterwards *)
+Definition chk (c : bool * str * bool * str * list record * bool * str * nat * nat) : bool :=
+  let '(buffered, mode, caller, existing, recs, refused, f, e, x) := c in
+  match run_basic buffered (fixed (mkFC caller true)) existing mode recs, refused with
+  | None, true => beq existing f
+  | Some st, false => beq (file st) f && Nat.eqb (errors st) e && Nat.eqb (escaped st) x
+  | _, _ => false
+  end.
+"""
+
+
+def mode_case_term(case, obs, asctime):
+    refused = bool(obs["setup_exc"])
+    f = obs["file"] if obs["file_exists"] else ""
+    return "(%s, %s, %s, %s, %s, %s, %s, %d%%nat, %d%%nat)" % (
+        coq_bool(case["buffered"]), cps(case["mode"]), coq_bool(case["caller"]), cps(case["existing"] or ""),
+        coq_list([rec_term(r, asctime) for r in case["recs"]]) if case["recs"] else "(@nil record)", coq_bool(refused),
+        cps(f), obs["errors"], len(obs["escaped"]))
 
 
 # ------------------------------------------------------------------------------------------------
@@ -1143,6 +1307,12 @@ def run(rep):
             o = run_multilog_impl(case, rep.workdir)
             why = oracle_multilog(case, o, asctime)
             why = why and "file %d: %s" % why
+        elif r["suite"] == "log-mode":
+            o = run_log_impl(case, rep.workdir)
+            why = oracle_mode(case, o, asctime)
+        elif r["suite"] == "reopen":
+            o = c20_reopen.run_reopen_impl(case, rep.workdir)
+            why = c20_reopen.oracle_reopen(case, o)
         else:
             o = run_chan_impl(case, rep.workdir)
             why = oracle_chan(case, o)
@@ -1294,6 +1464,60 @@ def run(rep):
                 if found:
                     break
 
+    # 3a-m. log-mode : the mode argument in every spelling x previous content x both handlers
+    ocases, oterms, ofails = [], [], []
+    odist = {"cases": 0, "kinds": {}, "spellings": set(), "buffered": 0, "with_previous_content": 0, "no_file_before": 0, "refused": 0,
+             "served_append": 0, "served_write": 0, "records": 0}
+    for case in mode_cases(rng, wide, thorough):
+        obs = run_log_impl(case, rep.workdir)
+        ocases.append((case, obs))
+        oterms.append(mode_case_term(case, obs, asctime))
+        odist["cases"] += 1
+        odist["kinds"][case["mode_kind"]] = odist["kinds"].get(case["mode_kind"], 0) + 1
+        odist["spellings"].add(case["mode"])
+        odist["buffered"] += case["buffered"]
+        odist["with_previous_content"] += bool(case["existing"])
+        odist["no_file_before"] += case["existing"] is None
+        odist["refused"] += bool(obs["setup_exc"])
+        odist["served_append"] += (not obs["setup_exc"]) and mode_meaning(case["mode"]) is True
+        odist["served_write"] += (not obs["setup_exc"]) and mode_meaning(case["mode"]) is False
+        odist["records"] += len(case["recs"])
+        rep.case(("mode", json.dumps(case, sort_keys=True)), nontrivial=bool(case["existing"]) and case["mode"] not in MODE_WORDS)
+        why = oracle_mode(case, obs, asctime)
+        if why:
+            ofails.append((len(ocases) - 1, why))
+    odist["spellings"] = len(odist["spellings"])
+    rep.sample({"suite": "log-mode", "case": ocases[3][0], "file": ocases[3][1]["file"]})
+    obad, olog = common.eval_cases(rep.workdir, "cases_c20_mode", MODE_HEADER, oterms, "chk", shard=150 if thorough else 50)
+    rep.coverage["correspondence"]["log-mode"] = {"cases": len(ocases), "distribution": odist, "oracle_failures": len(ofails),
+                                                  "model_disagreements": None if obad is None else len(obad)}
+    seen_o = set()
+    for ix, why in ofails:
+        case, obs = ocases[ix]
+        key = (case["buffered"], case["mode_kind"], mode_meaning(case["mode"]), re.sub(r"'[^']*'|\d+", "_", why)[:40])
+        if key in seen_o or len(seen_o) >= 4:
+            continue
+        seen_o.add(key)
+        small = case
+        if not obs["setup_exc"]:           # fewer records while it keeps failing
+            for n in range(len(case["recs"])):
+                cand = dict(case, recs=case["recs"][:n])
+                if oracle_mode(cand, run_log_impl(cand, rep.workdir), asctime):
+                    small = cand
+                    break
+        sobs = run_log_impl(small, rep.workdir)
+        rep.violation("log file (%s handler, enable_basic_logging(mode=%r), previous content of the file %r): %s" % (
+            "buffering" if small["buffered"] else "plain", small["mode"], small["existing"], oracle_mode(small, sobs, asctime) or why),
+            {"suite": "log-mode", "case": small, "observed": sobs, "rerun": "./check C20 --replay <this file>"})
+    if obad is None:
+        rep.broken.append("correspondence log-mode (model evaluation failed)")
+        rep.notes.append(olog)
+    else:
+        failing = set(ix for ix, _ in ofails)
+        for ix in [b for b in obad if b not in failing][:3]:
+            rep.broken.append("correspondence log-mode: model differs from implementation (mode=%r)" % ocases[ix][0]["mode"])
+            rep.notes.append("log-mode disagreement: %s %s" % (json.dumps(ocases[ix][0])[:800], json.dumps(ocases[ix][1])[:800]))
+
     # 3b. chan-log
     n_chan = 1500 if thorough else 150
     ccases, cterms, cfails = [], [], []
@@ -1384,7 +1608,7 @@ def run(rep):
         cterms.append(chan_case_term(mcase, mobs))         # the connection-level model (ChanLog.sess_log): A's sink, every read
         kterms.append(cmd_case_term(case, obs))            # the two-object model (Commandeer.cmd_run): A's and B's destinations
     rep.sample({"suite": "commandeer", "case": kcases[0][0], "sinks": kcases[0][1]["sinks"], "events": kcases[0][1]["events"]})
-    cbad, clog = common.eval_cases(rep.workdir, "cases_c20_chan", CHAN_HEADER, cterms, "chk")
+    cbad, clog = common.eval_cases(rep.workdir, "cases_c20_chan", CHAN_HEADER, cterms, "chk", shard=400 if thorough else 100)
     n_cd = len(ccases) + len(dcases)
     kbad = None if cbad is None else [b - n_cd for b in cbad if b >= n_cd]
     kbad2, klog = common.eval_cases(rep.workdir, "cases_c20_cmd", CMD_HEADER, kterms, "chk")
@@ -1460,6 +1684,62 @@ def run(rep):
             rep.broken.append("correspondence chan-log: model differs from implementation")
             rep.notes.append("chan-log disagreement: %s %s" % (json.dumps(ccases[ix][0])[:800], json.dumps(ccases[ix][1])[:800]))
 
+    # 3b-r. reopen : 2-3 whole sessions on ONE driver object (open, login, operations, close, open again ...), a snapshot of the
+    # destination after every close; the model (ChanReopen.reopen_run) is fed the observed open / read / close events up to each close
+    n_re = 700 if thorough else 90
+    rcases, rfails, rterms, rspan = [], [], [], []
+    rdist = {"cases": 0, "combos": {}, "sinks": {}, "modes": {}, "sessions": {}, "drivers": {}, "silent_logins": 0, "bypass": 0, "with_previous_content": 0,
+             "reads_in_later_sessions": 0, "later_sessions_with_login": 0, "reads_of_raising_operations": 0, "on_open": 0}
+    for i in range(n_re):
+        case = c20_reopen.gen_reopen_case(rng, i, gen_chunk)
+        obs = c20_reopen.run_reopen_impl(case, rep.workdir)
+        rcases.append((case, obs))
+        rdist["cases"] += 1
+        for key, val in (("combos", "%s/%s" % (case["stack"], case["transport"])), ("sinks", case["sink"]), ("modes", "append" if case["append"] else "write"),
+                         ("sessions", len(case["sessions"])), ("drivers", case["driver"])):
+            rdist[key][val] = rdist[key].get(val, 0) + 1
+        rdist["silent_logins"] += sum(1 for x in case["sessions"] if x["fault"] == "silent")
+        rdist["bypass"] += case["bypass"]
+        rdist["on_open"] += bool(case["on_open"])
+        rdist["with_previous_content"] += bool(case["existing"])
+        later = obs["sessions"][1:]
+        rdist["reads_in_later_sessions"] += sum(len(so["served"]) for so in later)
+        rdist["later_sessions_with_login"] += 0 if case["bypass"] else len(later)
+        rdist["reads_of_raising_operations"] += sum(1 for so in obs["sessions"] for _, loud in so["served"] if loud)
+        rep.case(("reopen", json.dumps(case, sort_keys=True)), nontrivial=case["sink"] != "none" and any(so["served"] for so in later))
+        why = c20_reopen.oracle_reopen(case, obs)
+        if why:
+            rfails.append((len(rcases) - 1, why))
+        if not obs["exc"]:
+            rspan.append(len(rcases) - 1)
+            rterms.append(reopen_case_term(case, obs))
+    rep.sample({"suite": "reopen", "case": rcases[0][0], "snapshots_after_each_close": [so["snapshot"] for so in rcases[0][1]["sessions"]]})
+    rbad, rlog = common.eval_cases(rep.workdir, "cases_c20_reopen", REOPEN_HEADER, rterms, "chk", shard=200 if thorough else 30)
+    rep.coverage["correspondence"]["reopen"] = {"cases": len(rcases), "model_terms": len(rterms), "distribution": rdist, "oracle_failures": len(rfails),
+                                                "model_disagreements": None if rbad is None else len(set(rspan[b] for b in rbad))}
+    seen_r = set()
+    for ix, why in rfails:
+        case, obs = rcases[ix]
+        key = (case["stack"], "bytesio" if case["sink"].startswith("bytesio") else "file", case["append"] if case["sink"] in ("path", "true") else None)
+        if key in seen_r or len(seen_r) >= 4:
+            continue
+        seen_r.add(key)
+        small, sobs, swhy = c20_reopen.shrink_reopen(case, rep.workdir, why)
+        rep.violation("re-opened driver object (%s %s driver, transport %s, channel_log %s%s, %d sessions): %s" % (
+            small["stack"], small["driver"], small["transport"], small["sink"],
+            ", %s mode" % ("append" if small["append"] else "write") if small["sink"] in ("path", "true") else "", len(small["sessions"]), swhy),
+            {"suite": "reopen", "case": small, "observed": sobs,
+             "expected_after_each_close": [None if w is None else w.hex() for w in c20_reopen.reopen_expected(small, sobs)],
+             "rerun": "./check C20 --replay <this file>"})
+    if rbad is None:
+        rep.broken.append("correspondence reopen (model evaluation failed)")
+        rep.notes.append(rlog)
+    else:
+        failing = set(ix for ix, _ in rfails)
+        for ix in sorted(set(rspan[b] for b in rbad) - failing)[:3]:
+            rep.broken.append("correspondence reopen: model differs from implementation")
+            rep.notes.append("reopen disagreement: %s %s" % (json.dumps(rcases[ix][0])[:800], json.dumps(rcases[ix][1]["sessions"])[:800]))
+
     # 3c. session : channel + log file together (records produced by the hot path itself)
     n_sess = 1500 if thorough else 120
     scases, sterms, sfails = [], [], []
@@ -1486,7 +1766,7 @@ def run(rep):
         else:
             sdist["uncapturable"] += 1
     rep.sample({"suite": "session", "case": scases[0][0], "file": scases[0][1]["file"], "channel_log": scases[0][1]["sink"]})
-    sbad, slog = common.eval_cases(rep.workdir, "cases_c20_sess", LOG_HEADER, [t for _, t in sterms], "chk", shard=150)
+    sbad, slog = common.eval_cases(rep.workdir, "cases_c20_sess", LOG_HEADER, [t for _, t in sterms], "chk", shard=150 if thorough else 30)
     rep.coverage["correspondence"]["session"] = {"cases": len(sterms), "distribution": sdist,
                                                  "model_disagreements": None if sbad is None else len(sbad), "oracle_failures": len(sfails)}
     seen = set()
@@ -1537,8 +1817,23 @@ def run(rep):
                 "logger to every attached handler (one shared record object) or handed to chosen handlers in interleaved runs, handlers closed in the middle "
                 "of the others' traffic and in every order, plus EVERY interleaving of length <= 3 (thorough: 4) of {read, info} x {handler 0, handler 1} "
                 "with both close orders; oracle and model per file = those of ONE handler on the records that handler was given; "
+                "log-mode: enable_basic_logging(mode=...) in EVERY casing of 'append' and 'write' (2^6 + 2^5 spellings), the usual spellings (lower, UPPER, "
+                "Capitalized, cAPITALIZED) x {no file, empty file, three files with previous content} x {buffering, plain} in full, spellings with "
+                "leading / trailing blanks (space, tab, newline, VT, FF, NBSP, EM SPACE) and 34 strings that are no mode; observers: the exception class "
+                "and whether it is a scrapli error, the handlers left on the logger, whether the file exists and what it holds; oracle: a spelling that is "
+                "write / append (case and blanks aside) is served correctly (append: previous content kept, then the records in order; write: starts "
+                "empty) or refused cleanly, 'write' / 'append' themselves are served, no-mode strings are refused with a scrapli error, no handler, the file "
+                "untouched / not created; "
+                "reopen: 2-3 whole sessions on ONE driver object (open -> in-channel login -> on_open -> operations -> close -> open again ...; base and "
+                "generic drivers; telnet, system, asynctelnet; sync and asyncio; a non-final session may go silent inside its login), channel_log configured "
+                "once: path / True / io.BytesIO (closed by close()) / a BytesIO that survives close() / off, write and append mode, previous content; "
+                "observers: wire record per session tagged with the operation that read it and whether that operation raised, every channel.open() / "
+                "close(), a snapshot of the destination after EVERY close; oracle per session: append = previous snapshot + the bytes served in the "
+                "session, CRs removed; write = the bytes served in this session alone; BytesIO = previous snapshot + the reads of the operations that "
+                "completed (a read may fail loudly on a closed log object, it may not vanish); no handle left open, open() / close() do not raise; "
                 "session: channel + log file together. non-trivial = (log) >= 2 records with a read, (chan) a sink and a CR or ESC served, "
                 "(driver) a sink, a login in the channel and >= 2 reads, (commandeer) a sink and reads through both objects, (log-multi) >= 2 records with a read, "
+                "(log-mode) a spelling other than 'write' / 'append' on a file with content, (reopen) a sink and reads in a later session, "
                 "(session) >= 2 reads; distinct = the whole case")
     shutil.rmtree(os.path.join(rep.workdir, "tmp"), ignore_errors=True)
 
@@ -1617,6 +1912,35 @@ def replay(path):
         for dest in sorted(obs["sinks"]):
             print("destination %-9s holds %r" % (dest, None if obs["sinks"][dest] is None else bytes.fromhex(obs["sinks"][dest])))
             print("            should hold %r" % (want.get(dest),))
+    elif suite == "log-mode":
+        asctime = _asctime()
+        obs = run_log_impl(case, wd)
+        why = oracle_mode(case, obs, asctime)
+        m = mode_meaning(case["mode"])
+        print("previous content of the log file: %r" % (case["existing"],))
+        print("enable_basic_logging(file=<the file>, buffer_log=%r, mode=%r)   [the spelling means: %s]" % (
+            case["buffered"], case["mode"], {None: "no mode", True: "append", False: "write"}[m]))
+        if obs["setup_exc"]:
+            print("   raised %s (a scrapli error: %s); handlers left on the logger: %d" % (obs["setup_exc"], obs["setup_scrapli"], obs["left_handlers"]))
+        print("records:")
+        for rd in case["recs"]:
+            print("   %r %% %r  extra=%r" % (rd["msg"], _args(rd), rd["extra"]))
+        print("file afterwards%s:\n%s" % ("" if obs["file_exists"] else " (does not exist)", obs["file"] if obs["file_exists"] else ""))
+    elif suite == "reopen":
+        obs = c20_reopen.run_reopen_impl(case, wd)
+        why = c20_reopen.oracle_reopen(case, obs)
+        want = c20_reopen.reopen_expected(case, obs)
+        print("ONE %s driver object (%s), transport %s, auth_bypass %s, channel_log %s (%s mode), previous content %r, on_open %r" % (
+            case["stack"], case["driver"], case["transport"], case["bypass"], case["sink"], "append" if case["append"] else "write",
+            bytes.fromhex(case["existing"]) if (case["has_existing"] or case["sink"].startswith("bytesio")) else None, case["on_open"]))
+        for j, so in enumerate(obs["sessions"]):
+            print("session %d: open(); %r; close()" % (j + 1, case["sessions"][j]["ops"]))
+            for k, sj, c, n in obs["events"]:
+                if sj == j and k in ("open", "r", "close"):
+                    print("   %-6s %s" % ({"open": "chan.open", "close": "chan.close", "r": "read"}[k], repr(bytes.fromhex(c)) if k == "r" else ""))
+            print("   results:", [(a, b if (l or b in (None, "Starved") or a in ("open", "close")) else "<bytes>") for a, b, l in so["results"]])
+            print("   channel log after this close:", None if so["snapshot"] is None else bytes.fromhex(so["snapshot"]))
+            print("   should hold                 :", want[j])
     elif suite == "session":
         obs = run_session_impl(case, wd)
         why = oracle_session(case, obs)
@@ -1659,7 +1983,20 @@ MANIFEST = {
             "with A's destination, and an independent oracle decides every configured destination (same / different / no channel_log on B; path, True, BytesIO) "
             "from the wire record and the observed open log of the reading channel. Several handler instances in one process (2-3 files, interleaved and "
             "broadcast record sequences, closes in the middle): every file is checked against the one-handler model and the one-handler oracle on the records "
-            "that handler was given. The translator discovers the handler's attribute names from emit / emit_buffered (the prefix the message is tested "
+            "that handler was given. "
+            "One driver object opened again after close (model ChanReopen.v: the destination outlives the handles; channel_log is none / open / closed; "
+            "open() opens a file destination anew — truncated in write mode — and takes a BytesIO as it is, closed or not): reopen_append_exact — after any "
+            "number of whole sessions an append-mode file holds its previous content + every byte of every session; reopen_write_last — a write-mode file holds "
+            "the last session, whole; reopen_bytesio_kept_open_exact; reopen_full is REFUTED for io.BytesIO proper (close() closes the caller's object: opened "
+            "again every read raises ValueError — reopen_bytesio_closed_loud) and reopen_nothing_silent is what holds for every destination: each read of each "
+            "session is logged or raises, none vanishes; reopen_skip_if_set_refuted shows the theorem notices 'set the log up only once, skip a closed log'. "
+            "The mode argument (LogHandler.mode_of / run_basic): mode_spelling — a string means append / write iff its lower-cased form is 'append' / 'write', "
+            "anything else is refused before a handler exists; mode_append_keeps_previous — in every casing of 'append', both handlers, the file is its "
+            "previous content followed by what the same records give on an empty file; mode_write_starts_empty; mode_raw_lookup_refuted shows that choosing the "
+            "file mode from the raw spelling is noticed. Both models are run (vm_compute) against the real code: log-mode cases against enable_basic_logging "
+            "(accepted / refused, file, error counts), re-open histories against the real drivers session by session (observed open / read / close events, "
+            "the snapshot after each close, the number of reads of raising operations). "
+            "The translator discovers the handler's attribute names from emit / emit_buffered (the prefix the message is tested "
             "against, the cut of the payload, the attributes they write, the f-string assigned to .msg) instead of assuming them.",
     "note": "Proved of the hand-written Gallina models (LogHandler.v, LogFormat.v, ChanLog.v); the models are tied to the code by the correspondence run and the "
             "regenerated obligations only (partial: the runtime is observed on generated cases, not proved). Modelled rather than verified: logging.LogRecord.getMessage "
@@ -1679,7 +2016,16 @@ MANIFEST = {
             "is by construction in the model (its state is per handler): the log-multi suite ties it to the code by running the one-handler model per file; "
             "state shared between instances shows as a per-file disagreement and oracle failure. In the logger-routed log-multi cases the records carry host "
             "and port: a record without host is completed (host = port = '') by the first ScrapliFormatter that formats it, so a second handler's formatter "
-            "shows ':' in the target column where the first showed '' (layout, outside the property; seen on the unchanged tree).",
+            "shows ':' in the target column where the first showed '' (layout, outside the property; seen on the unchanged tree). "
+            "Re-open histories: the model has the channel-level events only (open / read / close); that Driver.close() closes the channel log, which "
+            "operations read, the login dialogue and a login going silent are oracle-only / observed. On the unchanged tree a plain io.BytesIO channel_log "
+            "cannot log a second session of the same driver object (BaseChannel.close() closes the caller's object, the next read raises ValueError: I/O "
+            "operation on closed file): the oracle accepts a read that fails loudly and rejects one that vanishes, the Coq statement is the refuted "
+            "reopen_full + reopen_bytesio_closed_loud. In write mode every open() truncates the file, so after a re-open it holds the last session only: "
+            "that is what 'write' is taken to mean (the oracle checks the snapshot after every close, so no session is unobserved). "
+            "Mode spellings: str.lower / str.strip are modelled on code points with A-Z only (no other character lower-cases to a letter of 'write' / "
+            "'append'); the unchanged tree refuses spellings with surrounding blanks, which the oracle allows (refused cleanly) as well as serving them; "
+            "non-str modes are outside the typed signature and not generated.",
     "technique": "Coq proof by induction over the record sequence with a ghost pending-group invariant (left-to-right handler vs right-fold partition), by-computation "
                  "obligations over regenerated definitions, vm_compute correspondence against the real handlers/formatter/channels (sync + asyncio) with independent oracles",
 }
